@@ -326,8 +326,8 @@ def record_diff(er, rr):
             diffs.append({"member": nm, "expected": ev, "real": cand[0] if cand else "(absent)"})
         else:
             left.remove(hit)
-            if form_differs(ev, hit[1]):
-                FORM_DRIFT.append(nm)
+            if form_differs(ev, hit[1]) and sum(1 for x in er["members"] if x[0] == nm) == 1:
+                FORM_DRIFT.append(nm)      # (with duplicate names the pairing itself is ambiguous)
     for nm, rv in left:
         diffs.append({"member": nm, "expected": "(absent)", "real": rv})
     return diffs
